@@ -1,7 +1,8 @@
 //! `net` (C17) and `netto` (C18) families: real kernel sockets under the deterministic scheduler
 //!
 //! net:   cfg[0] = transport 0 UnixStream::pair, 1 UnixListener + connect, 2 TCP loopback,
-//!                 3 UdpSocket, 4 UnixDatagram pair; cfg[1] = 1: echo through split() halves
+//!                 3 UdpSocket, 4 UnixDatagram pair; cfg[1] = 1: read through split() halves,
+//!                 2: coroutine readers do raw non-blocking reads and block in WaitIo::wait_io
 //!        actors come in pairs per connection: role 0 writer ops[0] = Op(W, total bytes, chunk),
 //!        role 1 reader ops[0] = Op(R, buffer size, 0); datagrams: total = count, chunk = size
 //! netto: cfg[0] = transport 0 UnixStream::pair, 2 TCP, 3 UDP; cfg[1] = 1: the reader is cancelled
@@ -135,8 +136,11 @@ struct ConnResult {
 }
 
 /// one stream connection: the writer sends `total` bytes in chunks, the reader reads until EOF
-fn stream_pair(case: &Case, conn: usize, wa: &Actor, ra: &Actor, states: &States, wi: usize, ri: usize, echo: bool) -> (H<bool>, H<ConnResult>) {
+fn stream_pair(case: &Case, conn: usize, wa: &Actor, ra: &Actor, states: &States, wi: usize, ri: usize, mode: i64) -> (H<bool>, H<ConnResult>) {
     let transport = case.cfg(0);
+    let echo = mode == 1;
+    // wait_io is a coroutine only API
+    let wait_io = mode == 2 && ra.ctx == CO;
     let total = wa.ops[0].1 as usize;
     let chunk = (wa.ops[0].2 as usize).max(1);
     let bufsz = (ra.ops[0].1 as usize).max(1);
@@ -201,6 +205,35 @@ fn stream_pair(case: &Case, conn: usize, wa: &Actor, ra: &Actor, states: &States
                     drop(wr);
                 }
             }
+        } else if wait_io {
+            // the reader does its own non-blocking reads and only blocks through WaitIo::wait_io
+            use may::io::WaitIo;
+            use std::os::fd::AsRawFd;
+            let fd = match &s {
+                Stream::Unix(u) => u.as_raw_fd(),
+                Stream::Tcp(t) => t.as_raw_fd(),
+            };
+            loop {
+                let k = unsafe { libc::recv(fd, buf.as_mut_ptr() as *mut libc::c_void, buf.len(), libc::MSG_DONTWAIT) };
+                if k > 0 {
+                    got.extend_from_slice(&buf[..k as usize]);
+                } else if k == 0 {
+                    zero_reads += 1;
+                    break;
+                } else {
+                    let e = std::io::Error::last_os_error();
+                    match e.kind() {
+                        std::io::ErrorKind::WouldBlock => {
+                            match &s {
+                                Stream::Unix(u) => u.wait_io(),
+                                Stream::Tcp(t) => t.wait_io(),
+                            };
+                        }
+                        std::io::ErrorKind::Interrupted => {}
+                        _ => break,
+                    }
+                }
+            }
         } else {
             let mut s = s;
             loop {
@@ -255,7 +288,7 @@ pub fn run_net(case: &Case) -> Outcome {
     if transport <= 2 {
         let mut hs = vec![];
         for (conn, (wi, ri)) in pairs.iter().enumerate() {
-            let (w, r) = stream_pair(case, conn, &case.actors[*wi], &case.actors[*ri], &states, *wi, *ri, case.cfg(1) == 1);
+            let (w, r) = stream_pair(case, conn, &case.actors[*wi], &case.actors[*ri], &states, *wi, *ri, case.cfg(1));
             hs.push((conn, case.actors[*wi].ops[0].1 as usize, w, r));
         }
         for (conn, total, w, r) in hs {
@@ -364,6 +397,7 @@ pub fn run_net(case: &Case) -> Outcome {
     out.flag_if(any_blocked, "writer_blocked");
     out.flag_if(pre, "preempted");
     out.flag_if(case.cfg(1) == 1, "split_halves");
+    out.flag_if(case.cfg(1) == 2 && transport <= 2 && case.actors.iter().any(|a| a.role == 1 && a.ctx == CO), "wait_io_reader");
     out.flag_if(pairs.len() >= 2, "several_connections");
     out.flag_if(case.actors.iter().any(|a| a.ctx == TH), "thread_endpoint");
     out.flag_if(sched::preempted_in("io/sys/unix"), "preempted_in_io_sys");
@@ -519,7 +553,7 @@ pub fn run_netto(case: &Case) -> Outcome {
     let mut conn = 0;
     let mut i = 2;
     while i + 1 < case.actors.len() {
-        let (w, r) = stream_pair(&Case { cfg: vec![0, 0], ..case.clone() }, conn, &case.actors[i], &case.actors[i + 1], &states, i, i + 1, false);
+        let (w, r) = stream_pair(&Case { cfg: vec![0, 0], ..case.clone() }, conn, &case.actors[i], &case.actors[i + 1], &states, i, i + 1, 0);
         bys.push((conn, case.actors[i].ops[0].1 as usize, w, r));
         conn += 1;
         i += 2;
@@ -620,7 +654,7 @@ pub fn run_netto(case: &Case) -> Outcome {
 
 pub fn strategy_net(g: &GenCfg) -> BoxedStrategy<Case> {
     let g2 = g.clone();
-    (prop_oneof![3 => Just(0i64), 2 => Just(1i64), 2 => Just(2i64), 1 => Just(3i64), 1 => Just(4i64)], prop_oneof![3 => Just(0i64), 1 => Just(1i64)])
+    (prop_oneof![3 => Just(0i64), 2 => Just(1i64), 2 => Just(2i64), 1 => Just(3i64), 1 => Just(4i64)], prop_oneof![3 => Just(0i64), 1 => Just(1i64), 1 => Just(2i64)])
         .prop_flat_map(move |(transport, echo)| {
             let conn = if transport <= 2 {
                 // payload up to 512 KiB (several unix socket buffers), bounded number of operations
